@@ -191,7 +191,7 @@ PROPS['C12'] = dict(
     level_note='Exact reals; orders, node counts, paddings and boundary sequences enumerated to the bound; the Eigen/Armadillo solvers are not part of the claim; trusted: g++, libz3, sym.h/harness.h, oracle + StubSolver in C12_interp.cpp.')
 
 PROPS['C17'] = dict(
-    engine='A', technique='symbolic-scalar execution of the real integrate<n> over an exact Gauss-Legendre stub (algebraic nodes as constrained symbols) + QF_NRA obligations; replay in an exact tower of quadratic extensions of Q',
+    engine='A', technique='symbolic-scalar execution of the real integrate<n> over an exact Gauss-Legendre stub (algebraic nodes as constrained symbols) + QF_NRA obligations; replay in an exact tower of quadratic extensions of Q; rules with more than 5 points through an interpolation model of the exactness contract',
     harnesses=[dict(name='C17_quadrature_large', src='C17_quadrature.cpp', pre_includes=['symt/stub'], chunk=1,
                     defs=dict(quick=['-DFIXED_GRID', '-DLARGE=17'], thorough=['-DFIXED_GRID', '-DLARGE=20', '-DNSAMPLE=12']),
                     functions=['integrate<n> on sampled window pairs of a 17-point (thorough: 20-point) fixed rational grid for (n,o1,o2,d) in {(2,1,1,1),(3,2,1,2),(2,0,3,0)}; (4,3,3,1), (4,5,2,0), (5,4,4,1), (5,6,3,0), (5,2,5,2) on 2..3-point grids; rules with 6, 8, 11, 13 points (interpolation model of the exactness contract): (6,5,5,1), (8,7,7,1), (11,10,11,0), (11,12,9,0), (13,12,12,1)']),
@@ -259,7 +259,7 @@ PROPS['C10'] = dict(
 _ARCH = ['-DSYMT_STRICT', '-DSYMT_POISON_DEFAULT', '-DSYMT_POISON_MOVED']
 _ARCH_T = ['-DSYMT_STRICT', '-DSYMT_POISON_DEFAULT', '-DSYMT_TRIVIAL']
 PROPS['C19'] = dict(
-    engine='A', technique='archetype instantiation: every core template and the generic interpolate are compiled and symbolically executed with a scalar type offering ONLY the documented operations (default-constructed values are arbitrary, not zero); obligations of C01-C08, C12, C15 re-proved with it',
+    engine='A', technique='archetype instantiation: every core template and the generic interpolate are compiled and symbolically executed with a scalar type offering ONLY the documented operations (default-constructed and moved-from values are arbitrary, not zero; a second flavour is trivially copyable with arbitrary zero bytes); obligations of C01-C08, C12, C15 re-proved with it',
     compile_failure_is_violation=True,
     harnesses=[
         dict(name='C19_generator', src='C01_generator.cpp', chunk=1, defs=dict(quick=_ARCH + ['-DMAXP=2', '-DEXTRA=3'], thorough=_ARCH + ['-DMAXP=3', '-DEXTRA=4', '-DSMOOTHNESS']), functions=['BSplineGenerator<T>', 'generateBSplines<p>']),
